@@ -1,0 +1,342 @@
+//go:build verif
+
+package encode
+
+// Machine-checked contracts for package encode, discharged by /verif's slimvc
+// (weakest-precondition generation over go/ssa + SMT). The //@ lines are the
+// contracts; the functions at the end of this file are ghost code (never
+// called) whose contracts state the round-trip laws as lemmas over the
+// contracts of Encode/Decode/GetSize/GetEncodedSize.
+// This file is compiled only with -tags verif.
+
+//@ func (U16).Encode
+//@   property C15
+//@   requires istype(d, uint16)
+//@   ensures len(result) == 2 && le16(result, 0) == d.(uint16)
+//@   ensures fresh(result)
+
+//@ func (U16).Decode
+//@   property C15 C14
+//@   requires len(b) >= 2
+//@   ensures result0 == 2 && istype(result1, uint16) && result1.(uint16) == le16(b, 0)
+
+//@ func (U16).GetSize
+//@   property C15
+//@   ensures result == 2
+
+//@ func (U16).GetEncodedSize
+//@   property C15
+//@   ensures result == 2
+
+//@ func (U32).Encode
+//@   property C15
+//@   requires istype(d, uint32)
+//@   ensures len(result) == 4 && le32(result, 0) == d.(uint32)
+//@   ensures fresh(result)
+
+//@ func (U32).Decode
+//@   property C15 C14
+//@   requires len(b) >= 4
+//@   ensures result0 == 4 && istype(result1, uint32) && result1.(uint32) == le32(b, 0)
+
+//@ func (U32).GetSize
+//@   property C15
+//@   ensures result == 4
+
+//@ func (U32).GetEncodedSize
+//@   property C15
+//@   ensures result == 4
+
+//@ func (U64).Encode
+//@   property C15
+//@   requires istype(d, uint64)
+//@   ensures len(result) == 8 && le64(result, 0) == d.(uint64)
+//@   ensures fresh(result)
+
+//@ func (U64).Decode
+//@   property C15 C14
+//@   requires len(b) >= 8
+//@   ensures result0 == 8 && istype(result1, uint64) && result1.(uint64) == le64(b, 0)
+
+//@ func (U64).GetSize
+//@   property C15
+//@   ensures result == 8
+
+//@ func (U64).GetEncodedSize
+//@   property C15
+//@   ensures result == 8
+
+//@ func (I16).Encode
+//@   property C15
+//@   requires istype(d, int16)
+//@   ensures len(result) == 2 && le16(result, 0) == u16(d.(int16))
+//@   ensures fresh(result)
+
+//@ func (I16).Decode
+//@   property C15 C14
+//@   requires len(b) >= 2
+//@   ensures result0 == 2 && istype(result1, int16) && result1.(int16) == s16(le16(b, 0))
+
+//@ func (I16).GetSize
+//@   property C15
+//@   ensures result == 2
+
+//@ func (I16).GetEncodedSize
+//@   property C15
+//@   ensures result == 2
+
+//@ func (I32).Encode
+//@   property C15
+//@   requires istype(d, int32)
+//@   ensures len(result) == 4 && le32(result, 0) == u32(d.(int32))
+//@   ensures fresh(result)
+
+//@ func (I32).Decode
+//@   property C15 C14
+//@   requires len(b) >= 4
+//@   ensures result0 == 4 && istype(result1, int32) && result1.(int32) == s32(le32(b, 0))
+
+//@ func (I32).GetSize
+//@   property C15
+//@   ensures result == 4
+
+//@ func (I32).GetEncodedSize
+//@   property C15
+//@   ensures result == 4
+
+//@ func (I64).Encode
+//@   property C15
+//@   requires istype(d, int64)
+//@   ensures len(result) == 8 && le64(result, 0) == u64(d.(int64))
+//@   ensures fresh(result)
+
+//@ func (I64).Decode
+//@   property C15 C14
+//@   requires len(b) >= 8
+//@   ensures result0 == 8 && istype(result1, int64) && result1.(int64) == s64(le64(b, 0))
+
+//@ func (I64).GetSize
+//@   property C15
+//@   ensures result == 8
+
+//@ func (I64).GetEncodedSize
+//@   property C15
+//@   ensures result == 8
+
+//@ func (I8).Encode
+//@   property C15
+//@   requires istype(d, int8)
+//@   ensures len(result) == 1 && result[0] == u8(d.(int8))
+//@   ensures fresh(result)
+
+//@ func (I8).Decode
+//@   property C15 C14
+//@   requires len(b) >= 1
+//@   ensures result0 == 1 && istype(result1, int8) && result1.(int8) == s8(b[0])
+
+//@ func (I8).GetSize
+//@   property C15
+//@   ensures result == 1
+
+//@ func (I8).GetEncodedSize
+//@   property C15
+//@   ensures result == 1
+
+//@ func (Int).Encode
+//@   property C15
+//@   requires istype(d, int)
+//@   ensures len(result) == 8 && le64(result, 0) == u64(d.(int))
+//@   ensures fresh(result)
+
+//@ func (Int).Decode
+//@   property C15
+//@   requires len(b) >= 8
+//@   ensures result0 == 8 && istype(result1, int) && result1.(int) == s64(le64(b, 0))
+
+//@ func (Int).GetSize
+//@   property C15
+//@   ensures result == 8
+
+//@ func (Int).GetEncodedSize
+//@   property C15
+//@   ensures result == 8
+
+//@ func (String16).Encode
+//@   property C15
+//@   requires istype(d, string) && len(d.(string)) < 65536
+//@   ensures len(result) == 2 + len(d.(string))
+//@   ensures int(result[0]) == len(d.(string)) / 256 && int(result[1]) == len(d.(string)) % 256
+//@   ensures forall(k, 0, len(d.(string)), result[2+k] == d.(string)[k])
+//@   ensures fresh(result)
+
+//@ func (String16).Decode
+//@   property C15
+//@   opt conv=exact
+//@   requires len(b) >= 2 && len(b) >= 2 + 256*int(b[0]) + int(b[1])
+//@   ensures result0 == 2 + 256*int(b[0]) + int(b[1]) && istype(result1, string)
+//@   ensures len(result1.(string)) == 256*int(b[0]) + int(b[1])
+//@   ensures forall(k, 0, 256*int(b[0]) + int(b[1]), result1.(string)[k] == b[2+k])
+
+//@ func (String16).GetSize
+//@   property C15
+//@   requires istype(d, string)
+//@   ensures result == 2 + len(d.(string))
+
+//@ func (String16).GetEncodedSize
+//@   property C15
+//@   opt conv=exact
+//@   requires len(b) >= 2
+//@   ensures result == 2 + 256*int(b[0]) + int(b[1])
+
+//@ func (Bytes).Encode
+//@   property C15
+//@   requires istype(d, []byte)
+//@   ensures sameslice(result, d.([]byte))
+
+//@ func (Bytes).Decode
+//@   property C15
+//@   requires 0 <= c.Size && c.Size <= len(b)
+//@   ensures result0 == c.Size && istype(result1, []byte) && sameslice(result1.([]byte), b[0:c.Size])
+
+//@ func (Bytes).GetSize
+//@   property C15
+//@   ensures result == c.Size
+
+//@ func (Bytes).GetEncodedSize
+//@   property C15
+//@   ensures result == c.Size
+
+//@ func (Dummy).Encode
+//@   property C15
+//@   ensures len(result) == 0
+
+//@ func (Dummy).Decode
+//@   property C15
+//@   ensures result0 == 0 && result1 == nil
+
+//@ func (Dummy).GetSize
+//@   property C15
+//@   ensures result == 0
+
+//@ func (Dummy).GetEncodedSize
+//@   property C15
+//@   ensures result == 0
+
+// ---------------------------------------------------------------------------
+// Ghost code: round-trip lemmas of property C15. Each function composes the
+// real methods; slimvc checks it against the callees' CONTRACTS only, so the
+// lemma holds for every implementation that satisfies the contracts above.
+
+// @ func lemmaRoundTripU16
+// @   property C15
+// @   ensures result0 == v && result1 == result4 && result2 == result4 && result3 == result4
+func lemmaRoundTripU16(v uint16, tail []byte) (uint16, int, int, int, int) {
+	e := U16{}
+	enc := e.Encode(v)
+	buf := append(enc, tail...)
+	n, d := e.Decode(buf)
+	return d.(uint16), n, e.GetSize(v), e.GetEncodedSize(buf), len(enc)
+}
+
+// @ func lemmaRoundTripU32
+// @   property C15
+// @   ensures result0 == v && result1 == result4 && result2 == result4 && result3 == result4
+func lemmaRoundTripU32(v uint32, tail []byte) (uint32, int, int, int, int) {
+	e := U32{}
+	enc := e.Encode(v)
+	buf := append(enc, tail...)
+	n, d := e.Decode(buf)
+	return d.(uint32), n, e.GetSize(v), e.GetEncodedSize(buf), len(enc)
+}
+
+// @ func lemmaRoundTripU64
+// @   property C15
+// @   ensures result0 == v && result1 == result4 && result2 == result4 && result3 == result4
+func lemmaRoundTripU64(v uint64, tail []byte) (uint64, int, int, int, int) {
+	e := U64{}
+	enc := e.Encode(v)
+	buf := append(enc, tail...)
+	n, d := e.Decode(buf)
+	return d.(uint64), n, e.GetSize(v), e.GetEncodedSize(buf), len(enc)
+}
+
+// @ func lemmaRoundTripI16
+// @   property C15
+// @   ensures result0 == v && result1 == result4 && result2 == result4 && result3 == result4
+func lemmaRoundTripI16(v int16, tail []byte) (int16, int, int, int, int) {
+	e := I16{}
+	enc := e.Encode(v)
+	buf := append(enc, tail...)
+	n, d := e.Decode(buf)
+	return d.(int16), n, e.GetSize(v), e.GetEncodedSize(buf), len(enc)
+}
+
+// @ func lemmaRoundTripI32
+// @   property C15
+// @   ensures result0 == v && result1 == result4 && result2 == result4 && result3 == result4
+func lemmaRoundTripI32(v int32, tail []byte) (int32, int, int, int, int) {
+	e := I32{}
+	enc := e.Encode(v)
+	buf := append(enc, tail...)
+	n, d := e.Decode(buf)
+	return d.(int32), n, e.GetSize(v), e.GetEncodedSize(buf), len(enc)
+}
+
+// @ func lemmaRoundTripI64
+// @   property C15
+// @   ensures result0 == v && result1 == result4 && result2 == result4 && result3 == result4
+func lemmaRoundTripI64(v int64, tail []byte) (int64, int, int, int, int) {
+	e := I64{}
+	enc := e.Encode(v)
+	buf := append(enc, tail...)
+	n, d := e.Decode(buf)
+	return d.(int64), n, e.GetSize(v), e.GetEncodedSize(buf), len(enc)
+}
+
+// @ func lemmaRoundTripI8
+// @   property C15
+// @   ensures result0 == v && result1 == result4 && result2 == result4 && result3 == result4
+func lemmaRoundTripI8(v int8, tail []byte) (int8, int, int, int, int) {
+	e := I8{}
+	enc := e.Encode(v)
+	buf := append(enc, tail...)
+	n, d := e.Decode(buf)
+	return d.(int8), n, e.GetSize(v), e.GetEncodedSize(buf), len(enc)
+}
+
+// @ func lemmaRoundTripInt
+// @   property C15
+// @   ensures result0 == v && result1 == result4 && result2 == result4 && result3 == result4
+func lemmaRoundTripInt(v int, tail []byte) (int, int, int, int, int) {
+	e := Int{}
+	enc := e.Encode(v)
+	buf := append(enc, tail...)
+	n, d := e.Decode(buf)
+	return d.(int), n, e.GetSize(v), e.GetEncodedSize(buf), len(enc)
+}
+
+// @ func lemmaRoundTripString16
+// @   property C15
+// @   requires len(v) < 65536
+// @   ensures len(result0) == len(v) && forall(k, 0, len(v), result0[k] == v[k])
+// @   ensures result1 == result4 && result2 == result4 && result3 == result4
+func lemmaRoundTripString16(v string, tail []byte) (string, int, int, int, int) {
+	e := String16{}
+	enc := e.Encode(v)
+	buf := append(enc, tail...)
+	n, d := e.Decode(buf)
+	return d.(string), n, e.GetSize(v), e.GetEncodedSize(buf), len(enc)
+}
+
+// @ func lemmaRoundTripBytes
+// @   property C15
+// @   requires 0 <= size && len(v) == size
+// @   ensures len(result0) == len(v) && forall(k, 0, len(v), result0[k] == v[k])
+// @   ensures result1 == result4 && result2 == result4 && result3 == result4
+func lemmaRoundTripBytes(size int, v []byte, tail []byte) ([]byte, int, int, int, int) {
+	e := Bytes{Size: size}
+	enc := e.Encode(v)
+	buf := append(append(make([]byte, 0, len(enc)+len(tail)), enc...), tail...)
+	n, d := e.Decode(buf)
+	return d.([]byte), n, e.GetSize(v), e.GetEncodedSize(buf), len(enc)
+}
